@@ -21,12 +21,17 @@ func stamp(salt, pos uint64) byte {
 	return byte(x >> 40)
 }
 
+// (norace: the per-byte loops over harness-owned buffers would dominate the
+// race detector's time; the buffers are never shared while being filled.)
+//
+//go:norace
 func fillStamps(b []byte, salt, pos uint64) {
 	for i := range b {
 		b[i] = stamp(salt, pos+uint64(i))
 	}
 }
 
+//go:norace
 func checkStamps(b []byte, salt, pos uint64) int {
 	for i := range b {
 		if b[i] != stamp(salt, pos+uint64(i)) {
@@ -147,7 +152,7 @@ func (p *peer35) run() {
 	}
 }
 
-func (p *peer35) send(pkt []byte) { p.end.WritePacket(pkt) }
+func (p *peer35) send(pkt []byte) { p.end.WriteOwned(pkt) }
 
 func (p *peer35) handle(pkt []byte) {
 	m, err := Parse(pkt)
@@ -327,4 +332,40 @@ func (p *peer35) state() map[string]any {
 		out[c.name] = st
 	}
 	return out
+}
+
+// Large harness buffers are recycled: fresh multi-megabyte allocations are
+// disproportionately expensive under the race detector (shadow memory).
+var bufPoolMu sync.Mutex
+var bufPool [][]byte
+
+func getBuf(n int) []byte {
+	if n < 32<<10 {
+		return make([]byte, n)
+	}
+	bufPoolMu.Lock()
+	defer bufPoolMu.Unlock()
+	for i, b := range bufPool {
+		if cap(b) >= n {
+			bufPool[i] = bufPool[len(bufPool)-1]
+			bufPool = bufPool[:len(bufPool)-1]
+			return b[:n]
+		}
+	}
+	c := n
+	if c < 256<<10 {
+		c = 256 << 10
+	}
+	return make([]byte, n, c)
+}
+
+func putBuf(b []byte) {
+	if cap(b) < 32<<10 {
+		return
+	}
+	bufPoolMu.Lock()
+	if len(bufPool) < 32 {
+		bufPool = append(bufPool, b[:0])
+	}
+	bufPoolMu.Unlock()
 }
